@@ -409,7 +409,13 @@ func (t *taskTrace) Do(options ...DoOption) {
 
 	response := newDoOption(options...)
 	verifhook.Point("task.do")
-	t.forward <- *response
+	select {
+	case t.forward <- *response:
+	case <-t.done:
+		// another answer has been processed meanwhile: this one has no
+		// effect and must not block its caller (only one message is ever
+		// taken from the forward channel)
+	}
 }
 
 func (t *taskTrace) process() {
